@@ -3,10 +3,10 @@ package main
 import (
 	"encoding/base64"
 	"encoding/json"
-	"strings"
 	"fmt"
 	"math/rand"
 	"sort"
+	"strings"
 
 	"github.com/golang-jwt/jwt"
 	sapi "github.com/resonatehq/resonate/internal/app/subsystems/api"
@@ -19,34 +19,35 @@ import (
 
 // profile: relative weights of request kinds and fault / schedule knobs of a random run
 type profile struct {
-	Weights   map[string]int `json:"weights"`
-	PFailPre  float64        `json:"pFailPre"`
-	PFailPost float64        `json:"pFailPost"`
-	PCrash    float64        `json:"pCrash"`
-	PRouteErr float64        `json:"pRouteErr"`
-	PSendOk   float64        `json:"pSendOk"`
-	PSendErr  float64        `json:"pSendErr"`
-	PBusy     float64        `json:"pBusy"`  // probability that the COMMIT of a batch hits a locked database
-	PSendFull float64        `json:"pSendFull"`
-	PDelay    float64        `json:"pDelay"` // probability that a pending store submission is held back this step
-	MaxBatch  int            `json:"maxBatch"`
-	Promises  int            `json:"promises"`
-	HostileIds bool          `json:"hostileIds"`
+	Weights    map[string]int `json:"weights"`
+	PFailPre   float64        `json:"pFailPre"`
+	PFailPost  float64        `json:"pFailPost"`
+	PCrash     float64        `json:"pCrash"`
+	PRouteErr  float64        `json:"pRouteErr"`
+	PSendOk    float64        `json:"pSendOk"`
+	PSendErr   float64        `json:"pSendErr"`
+	PBusy      float64        `json:"pBusy"` // probability that the COMMIT of a batch hits a locked database
+	PSendFull  float64        `json:"pSendFull"`
+	PDelay     float64        `json:"pDelay"` // probability that a pending store submission is held back this step
+	MaxBatch   int            `json:"maxBatch"`
+	Promises   int            `json:"promises"`
+	HostileIds bool           `json:"hostileIds"`
 }
 
 type driver struct {
-	w        *world
-	r        *rand.Rand
-	p        profile
-	pids     []string
-	instants []int64 // interesting clock positions (deadlines, lease ends)
-	subs     []string
-	sched    []string
-	crons    []string
-	converge bool
-	ntrav    int
+	w          *world
+	r          *rand.Rand
+	p          profile
+	pids       []string
+	instants   []int64 // interesting clock positions (deadlines, lease ends)
+	subs       []string
+	sched      []string
+	crons      []string
+	converge   bool
+	ntrav      int
 	routedBias bool // task-centred workloads: most promises are routed
 	settle     bool // convergence phase: every cycle finishes before the next begins
+	badTpl     bool // the first schedule id is (often) created with an id template that cannot be rendered
 }
 
 // ---- search: every search goes through the real API helper (state names, limits, cursor
@@ -460,9 +461,15 @@ func (d *driver) gen() *t_api.Request {
 		case 2:
 			ptags = map[string]string{"resonate:invoke": "w1"} // the scheduled promise is routed: created with its task
 		}
+		sid := d.pick(d.sched)
+		tpl := d.pick([]string{"{{.id}}.{{.timestamp}}", "{{.id}}.{{.timestamp}}", "fixed"})
+		if d.badTpl && sid == d.sched[0] && d.r.Intn(3) > 0 {
+			// accepted by the server (only the cron expression is validated), never renderable
+			tpl = d.pick([]string{"{{.id", "{{index .id 99}}"})
+		}
 		return &t_api.Request{Kind: t_api.CreateSchedule, CreateSchedule: &t_api.CreateScheduleRequest{
-			Id: d.pick(d.sched), Description: d.pick([]string{"", "d"}), Cron: d.pick(d.crons), Tags: []map[string]string{nil, {"team": "a"}, {"team": "b"}}[d.r.Intn(3)],
-			PromiseId: d.pick([]string{"{{.id}}.{{.timestamp}}", "{{.id}}.{{.timestamp}}", "fixed"}), PromiseTimeout: []int64{0, 1, 500, 1000000}[d.r.Intn(4)],
+			Id: sid, Description: d.pick([]string{"", "d"}), Cron: d.pick(d.crons), Tags: []map[string]string{nil, {"team": "a"}, {"team": "b"}}[d.r.Intn(3)],
+			PromiseId: tpl, PromiseTimeout: []int64{0, 1, 500, 1000000}[d.r.Intn(4)],
 			PromiseParam: d.value(), PromiseTags: ptags, IdempotencyKey: d.key()}}
 	case "SearchPromises":
 		return d.searchPromises()
@@ -601,7 +608,8 @@ func (d *driver) aioRound(drain bool) error {
 
 func selects(x *sub) bool {
 	for _, c := range x.sqe.Submission.Store.Transaction.Commands {
-		if c.Kind == t_aio.ReadEnqueueableTasks {
+		// (the sweeps whose selection is judged against the database of that very moment run as a batch of their own)
+		if c.Kind == t_aio.ReadEnqueueableTasks || c.Kind == t_aio.ReadSchedules {
 			return true
 		}
 	}
